@@ -678,6 +678,11 @@ class AbstractPathModelDAG(ABC):
             self._is_solved = True
             return True
 
+        # A (re-)solve invalidates whatever was cached from a previous solve of this model
+        if getattr(self, "_solution", None) is not None:
+            self._solution = None
+        self.edge_vars_sol = {}
+
         # self.write_model(f"model-{self.id}.lp")
         start_time = time.perf_counter()
         self.solver.optimize()
